@@ -107,7 +107,19 @@ def gen_events(rng, limits="default", closed=False, min_states=1, max_states=5, 
             "events": events, "odes": odes, "limits": lims}
 
 
-def initial_state(rng, spec, lo=0, hi=30, boundary_prob=0.2):
+def initial_state(rng, spec, lo=0, hi=30, boundary_prob=0.2, huge_prob=0.06):
+    x0 = _initial_state(rng, spec, lo, hi, boundary_prob)
+    # multi-scale populations: one compartment without an upper limit holds 1e8..2e9 individuals beside compartments of a handful
+    # (float64 spacing is still 1 far above that, every clause stays exact)
+    if rng.random() < huge_prob:
+        free = [i for i, l in enumerate(spec["limits"]) if l[1] is None and l[0] is not None]
+        if free:
+            x0[rng.choice(free)] = rng.choice([10 ** 8, 2 ** 27 + 3, 10 ** 9, 2 * 10 ** 9])
+            spec["huge_population"] = True
+    return x0
+
+
+def _initial_state(rng, spec, lo=0, hi=30, boundary_prob=0.2):
     x0 = []
     for l in spec["limits"]:
         a = l[0] if l[0] is not None else -5
